@@ -148,7 +148,7 @@ func (c rendererContext) RenderFile(filename string, b map[string]any) (string, 
 	source, err := os.ReadFile(filename)
 	if err != nil && os.IsNotExist(err) {
 		// Is it cached?
-		if cval, ok := c.ctx.config.Cache[filename]; ok {
+		if cval, ok := c.ctx.config.cachedSource(filename); ok {
 			source = cval
 		} else {
 			return "", err
